@@ -22,3 +22,14 @@ Example c02_nonvacuous :
   moving_scope_b mv_r0 mv_hist_incl = true /\
   length (filter (fun e => step_eqb (estep e) SIrr) (all_events (fk_run mv_cfg_incl (fs_init (LIncl mv_r0)) mv_hist_incl))) = 7%nat.
 Proof. vm_compute. repeat split; reflexivity. Qed.
+
+(* discovery mode (no configured LIB, hold-until-LIB), any handler oracle *)
+Theorem c02_discovery_partial : c02_discovery_statement.
+Proof. exact c02_discovery_proved. Qed.
+Print Assumptions c02_discovery_partial.
+
+Example c02_discovery_nonvacuous :
+  disc_scope_b dv_hist = true /\ c_hold (dv_cfg 1 None) = true /\ f_irr (c_filter (dv_cfg 1 None)) = true /\
+  length (filter (fun e => step_eqb (estep e) SIrr) (all_events (fk_run (dv_cfg 1 None) (fs_init LNone) dv_hist))) = 6%nat /\
+  length (filter (fun e => step_eqb (estep e) SStalled) (all_events (fk_run (dv_cfg 1 None) (fs_init LNone) dv_hist))) = 1%nat.
+Proof. vm_compute. repeat split; reflexivity. Qed.
